@@ -342,20 +342,27 @@ const osSort = "(Array Val Int)"
 func osKey(iface string) string { return "OS:" + iface }
 
 func (vc *VC) osOfFacet(st *State, facet string, recv Term) Term {
+	if !vc.facetNames[facet] {
+		vc.facetNames[facet] = true
+		vc.needRerun = true // earlier havocs in this pass did not know this facet
+	}
 	m := vc.getMem(st, osKey(facet), osSort)
 	return sx("select", m, recv)
 }
 
-// declaringIface: the named interface in which method m is declared.
-func declaringIface(m *types.Func) string {
-	sig := m.Type().(*types.Signature)
-	if r := sig.Recv(); r != nil {
-		if n, ok := types.Unalias(r.Type()).(*types.Named); ok {
-			return qualifier(n.Obj().Pkg()) + "." + n.Obj().Name()
-		}
+// methodUF: name of the uninterpreted function of a pure interface method — by method name and
+// signature only, so that one object seen through several interfaces is one abstract object.
+func methodUF(m *types.Func) string {
+	sig := stripRecv(m.Type().(*types.Signature))
+	h := uint32(2166136261)
+	for _, c := range []byte(types.TypeString(sig, qualifier)) {
+		h = (h ^ uint32(c)) * 16777619
 	}
-	return "iface"
+	return fmt.Sprintf("m_%s_%04x", sanitize(m.Name()), h&0xffff)
 }
+
+// declaringIface: the named interface in which method m is declared.
+func declaringIface(m *types.Func) string { return methodOwner(m) }
 
 func methodNames(t types.Type) map[string]bool {
 	out := map[string]bool{}
@@ -388,20 +395,30 @@ func (vc *VC) havocOS(st *State, recv Term, t types.Type) {
 	if t != nil {
 		ms = methodNames(t)
 	}
-	vc.Assumed["interface values used through unrelated interfaces are distinct objects (abstract state facets)"] = true
-	if t == nil || len(ms) == 0 {
-		key := osKey("$target")
-		m := vc.getMem(st, key, osSort)
-		nm := vc.newMemVersion(key)
-		fresh := vc.sc.Fresh("os", "Int")
-		vc.sc.Def(Eq(nm, sx("store", m, recv, fresh)))
-		st.mem[key] = nm
+	vc.Assumed["interface values used through unrelated interfaces are distinct objects (abstract state facets per method)"] = true
+	// method names whose results may change: those of every named interface related to t
+	affected := map[string]bool{}
+	all := t == nil || len(ms) == 0
+	if !all {
+		for n := range ms {
+			affected[n] = true
+		}
+		for _, fi := range vc.P.ifaceFacets() {
+			if subsetOf(ms, fi.methods) || subsetOf(fi.methods, ms) {
+				for n := range fi.methods {
+					affected[n] = true
+				}
+			}
+		}
 	}
-	for _, fi := range vc.P.ifaceFacets() {
-		if t != nil && !(subsetOf(ms, fi.methods) || subsetOf(fi.methods, ms)) {
+	for _, facet := range sortedKeys(vc.facetNames) {
+		if !all && !affected[facet] && facet != "$target" {
 			continue
 		}
-		key := osKey(fi.name)
+		if facet == "$target" && !all {
+			continue
+		}
+		key := osKey(facet)
 		m := vc.getMem(st, key, osSort)
 		nm := vc.newMemVersion(key)
 		fresh := vc.sc.Fresh("os", "Int")
@@ -457,13 +474,56 @@ func (P *Program) ifaceFacets() []ifaceFacet {
 
 // ifaceMethodKey: "op.Client.GetID" for a method declared in a named interface.
 func ifaceMethodKey(m *types.Func) string {
+	return methodOwner(m) + "." + m.Name()
+}
+
+var theProgram *Program
+
+// methodOwner: the named interface declaring m; for methods of anonymous interfaces, the unique
+// named module interface declaring a method of the same name and signature (so that a client
+// seen through interface{ GrantTypes() ... } and through op.Client is the same abstract object).
+func methodOwner(m *types.Func) string {
 	sig := m.Type().(*types.Signature)
 	if r := sig.Recv(); r != nil {
 		if n, ok := types.Unalias(r.Type()).(*types.Named); ok {
-			return qualifier(n.Obj().Pkg()) + "." + n.Obj().Name() + "." + m.Name()
+			return qualifier(n.Obj().Pkg()) + "." + n.Obj().Name()
 		}
 	}
-	return "iface." + m.Name()
+	if theProgram != nil {
+		owner := ""
+		cnt := 0
+		for path, sp := range theProgram.SSA {
+			if !strings.HasPrefix(path, modPath+"/pkg/") {
+				continue
+			}
+			sc := sp.Pkg.Scope()
+			for _, name := range sc.Names() {
+				tn, ok := sc.Lookup(name).(*types.TypeName)
+				if !ok {
+					continue
+				}
+				it, ok := tn.Type().Underlying().(*types.Interface)
+				if !ok {
+					continue
+				}
+				for i := 0; i < it.NumExplicitMethods(); i++ {
+					em := it.ExplicitMethod(i)
+					if em.Name() == m.Name() && types.Identical(stripRecv(em.Type().(*types.Signature)), stripRecv(sig)) {
+						owner = qualifier(sp.Pkg) + "." + tn.Name()
+						cnt++
+					}
+				}
+			}
+		}
+		if cnt == 1 {
+			return owner
+		}
+	}
+	return "iface"
+}
+
+func stripRecv(s *types.Signature) *types.Signature {
+	return types.NewSignatureType(nil, nil, nil, s.Params(), s.Results(), s.Variadic())
 }
 
 var effectfulPrefixes = []string{"Set", "Write", "Delete", "Save", "Store", "Create", "Revoke", "Terminate", "Append", "Add", "Complete", "Deny", "Close", "End", "Record", "Flush", "Encode", "Decode", "Unmarshal", "Marshal", "Read", "Do", "Next", "Scan", "Lock", "Unlock", "Start", "Handle", "Serve"}
@@ -578,10 +638,11 @@ func (vc *VC) pureMethodTerms(st *State, m *types.Func, recv Term, args []Term) 
 		sorts = append(sorts, vc.sortOf(sig.Params().At(i).Type()))
 	}
 	var res []Term
-	all := append([]Term{recv, vc.osOfFacet(st, declaringIface(m), recv)}, args...)
+	all := append([]Term{recv, vc.osOfFacet(st, m.Name(), recv)}, args...)
+	_ = mkey
 	for i := 0; i < sig.Results().Len(); i++ {
 		rt := sig.Results().At(i).Type()
-		f := "m_" + sanitize(mkey)
+		f := methodUF(m)
 		if sig.Results().Len() > 1 {
 			f += fmt.Sprintf("_%d", i)
 		}
@@ -814,7 +875,7 @@ func (fr *Frame) appendOp(st *State, call ssa.CallInstruction, argVals []ssa.Val
 		nm := vc.newMemVersion(lf.key)
 		st.mem[lf.key] = nm
 		nbb := nb
-		vc.havocs = append(vc.havocs, havocEvent{key: lf.key, old: old, new: nm, pred: func(a Term) Term { return Eq(sx("root", a), nbb) }})
+		vc.havocs = append(vc.havocs, havocEvent{key: lf.key, old: old, new: nm, pos: len(vc.sc.items), pred: func(a Term) Term { return Eq(sx("root", a), nbb) }})
 		// old part
 		src := lf.addr(sx("elem", vc.sptr(s), "?i"))
 		dst := lf.addr(sx("elem", nb, "?i"))
